@@ -57,11 +57,13 @@ def observe(prog, sql):
     # measured facts used for labels / exclusion classes only (never compared)
     try:
         live = set(ex.table_to_defined_table_map)
-        o['iters'] = sorted(len(set(it['predicates'])) for it in
-                            (ex.iterations or {}).values()
-                            if set(it['predicates']) & live)
+        parts = [(str(n), it) for n, it in (ex.iterations or {}).items()
+                 if set(it['predicates']) & live]
+        o['iters'] = sorted(len(set(it['predicates'])) for n, it in parts)
+        o['iter_names'] = [n for n, it in parts]      # dict order = unfolding order
     except Exception:
         o['iters'] = []
+        o['iter_names'] = []
     return o
 
 
@@ -299,6 +301,12 @@ class SubTimeout(Exception):
 
 # ------------------------------------------------------------------ comparison
 
+def iteration_order(o):
+    """Order of the plan's iterations in execution.iterations (a dict filled in the
+    order in which the recursive components were unfolded)."""
+    return list((o or {}).get('iter_names') or [])
+
+
 def first_diff(a, b, ctx=160):
     n = min(len(a), len(b))
     i = next((k for k in range(n) if a[k] != b[k]), n)
@@ -307,14 +315,14 @@ def first_diff(a, b, ctx=160):
         i, a[lo:i + ctx], b[lo:i + ctx])
 
 
-ALLOC_RE = re.compile(r'\bx_\d+\b')
+ALLOC_RE = re.compile(r'\b([xt])_\d+(?![0-9A-Za-z])')
 
 
 def line_multiset(sql):
     """Lines of the script with allocator numbers blanked, as a sorted list: equal for
     two scripts that differ only in the order in which statements were emitted (and in
     the numbering of generated aliases that follows from that order)."""
-    return sorted(ALLOC_RE.sub('x_N', x) for x in sql.split('\n'))
+    return sorted(ALLOC_RE.sub(r'\1_N', x) for x in sql.split('\n'))
 
 
 def compare(base, other):
